@@ -18,7 +18,7 @@ inline const std::vector<std::string> &tokens() {
         "\xe3\x80\x82", "\xef\xbc\x8e", "\xef\xbd\xa1", "\xc2\xad", "\xe2\x80\x8d", "\xe2\x80\x8c", "\xef\xbb\xbf", "\xc2\xa0", "\xe2\x80\xa8",
         "\xef\xbd\x81", "\xcc\x81", "\xc3\x9f", "\xc4\xb0", "\xc5\xbf", "\xf0\x9f\x98\x80", "\xd0\xb8", "\xe4\xbe\x8b",
         "\xff", "\xc0\xaf", "\xed\xa0\x80", "\xf4\x90\x80\x80", "\x80", "\xc3",
-        "0", "1", "255", "256", "0x1", "1.2.3.4", "[1.2.3.4]", "[IPv6:::1]", "#", "(", ")", "<", ">", ",", ";", "+", "%", "!", "~",
+        "0", "1", "255", "256", "0x1", "4294967296", "18446744073709551616", "99999999999999999999999", "1.2.3.4", "[1.2.3.4]", "[IPv6:::1]", "#", "(", ")", "<", ">", ",", ";", "+", "%", "!", "~",
     };
     return T;
 }
@@ -84,7 +84,11 @@ inline std::string mutate(sim_rng *r, const std::string &in) {
             static const size_t W[] = { 1023, 1024, 1025, 1100 }; size_t want = W[sim_below(r, 4)];
             if (s.size() < want) s.insert(dom_lo, std::string(want - s.size(), 'z'));
         } break;
-        case 12: s += T[sim_below(r, T.size())]; break;                 // append
+        case 12: if (sim_below(r, 3) == 0) {   // a run of code points that IDNA mapping deletes: huge spelling, short converted name
+            static const char *ign[] = { "\xc2\xad", "\xef\xb8\x8f", "\xe2\x81\xa0" };
+            const char *g = ign[sim_below(r, 3)]; size_t reps = 40 + sim_below(r, 700); std::string run; for (size_t i = 0; i < reps; i++) run += g;
+            s.insert(dom_lo + (s.size() > dom_lo ? sim_below(r, s.size() - dom_lo) : 0), run);
+        } else s += T[sim_below(r, T.size())]; break;                 // append
         case 13: s = T[sim_below(r, T.size())] + s; break;              // prepend
         case 14: if (at != std::string::npos) s += ".";  break;        // rooted
         default: if (at != std::string::npos && sim_below(r, 2)) s = s.substr(dom_lo) + "@" + s.substr(0, at); break;   // swap halves
